@@ -24,6 +24,14 @@ CLAIMED = {
         'No scaling factor is computed by running the library; the relation axioms on doubles are not decided.',
    note='Trusted: sa/tables/si.json (hand-written from the SI brochure), clang AST. If a reducer is restructured beyond the accumulate/recursive-call shape the anchors vanish (exit 2). Two reducer defects were replayed and repaired.',
    ref='DESIGN.md section 4, C08'),
+ 'C09': dict(
+   technique='static analysis: interprocedural null-state summaries of pointer parameters, dominance-based bound checks, container/parent pairing with element identity, who-may-write, acyclicity gate',
+   text='Over the object model and the services that accept entities: no exported method dereferences a shared_ptr parameter (directly or through callee summaries) without a dominating null test; element accesses by a size_t '
+        'parameter are dominated by index < size of the same container; only the owning classes write the child containers; every insertion sets the parent of the inserted element and detaches it from its previous parent; '
+        'every erase/overwrite clears the parent of the erased element itself; pointer lookups try identity first; setParent in Component::doAddComponent is reached only where the component is neither the new parent nor its ancestor; '
+        'equivalences are linked/unlinked on both sides. Necessary conditions on every path; the heap after arbitrary histories and use-after-free are not explored.',
+   note='Trusted: clang AST/CFG; assumes entities are only created through create(). Fourteen crashes/ownership defects found by these rules were replayed and repaired (fix commits listed in known_findings.json).',
+   ref='DESIGN.md section 4, C09'),
  'C10': dict(
    technique='static analysis: per-return field-coverage via CFG dominance and branch facts over the doEquals chain; size-symmetry and direct-children rules',
    text='For every doEquals in the Entity hierarchy and every CFG path to a result that can be true: every attribute field of the class was read on this side, '
